@@ -451,6 +451,13 @@ def main(argv=None):
             broken.append("forbidden tokens in Lean sources: " + "; ".join(hits[:10]))
         if not thms:
             broken.append("no theorems found in " + ",".join(modules))
+        if tier == "thorough" and not os.environ.get("VERIF_NO_LEANCHECKER"):
+            # independent re-check of the compiled theorem modules by the toolchain's kernel re-checker
+            with BuildLock(drv):
+                rc, out = sh(["lake", "env", "leanchecker"] + modules, cwd=LEAN_DIR, timeout=3000)
+            ctx.note("leanchecker_rc", rc)
+            if rc != 0:
+                broken.append("leanchecker rejected the compiled modules: " + out[-300:])
     discharged = sum(1 for t, axs in thms.items() if all(a in ALLOWED_AXIOMS for a in axs))
 
     if args.replay:
